@@ -3,6 +3,7 @@ import importlib
 _UNIT_MODULES = [
     "units.u_overlap.unit",
     "units.u_bigint.unit",
+    "units.u_constrain.unit",
 ]
 
 UNITS = {}
@@ -10,10 +11,35 @@ for m in _UNIT_MODULES:
     u = importlib.import_module(m).UNIT
     UNITS[u.name] = u
 
+NUMBIGINT_TB = ["ASSUMED contracts of the external crate num-bigint 0.4 (units/_shared/num_bigint.rs): sign, bits (< 2^63), bit, set_bit, checked_add/sub/mul/div, %, <<, >>, unary -, & | ^ (bitwise axioms), From<i32/usize/u8>, TryFrom<&BigInt> for usize/u32, comparisons"]
+REPORT_TB = ["ASSUMED contracts of diagn::Report methods (units/contracts_report.py): error*/warning*/note*/message add one top-level message; push_parent*/pop_parent change only the parent stack"]
+
 PROPERTIES = {
+    "C04": {
+        "units": ["U-bigint", "U-constrain"],
+        "claim": "For every integer v and every width N >= 1: check_and_constrain_argument returns Integer(v) with size Some(N) exactly when v is in the range the property states for uN/sN/iN, and FailedConstraint otherwise; the value is never changed. BigInt::min_size equals the minimal two's-complement width (proved against a recursive bit-length spec, with the lemma min_size(v) <= N <=> -2^(N-1) <= v < 2^N); BigInt::slice keeps exactly the named bits (low N bits for slice(N,0)).",
+        "not_reached": "parsing of the type names (interpret_typename, string code); resolve_data_element (sits on eval); that a FailedConstraint argument always fails the instruction: resolve_instruction_match_inner ignores it when the production never reads the parameter (finding D17, outside the verified set); width 0 (known finding D7).",
+        "trusted_base": NUMBIGINT_TB + REPORT_TB,
+    },
+    "C05": {
+        "units": ["U-bigint"],
+        "claim": "util::BigInt integer layer, for all unbounded integers: checked_add/sub/mul are exact or Err beyond the magnitude cap; checked_div truncates toward zero and fails exactly on a zero divisor; checked_mod has the sign of the dividend; checked_shl multiplies by 2^k, checked_shr floors; slice/concat select and join exactly the named bits of the infinite two's-complement expansion and produce sized non-negative values; neg, &, |, ^ forward to the big-integer operation; sizes are tracked as stated.",
+        "not_reached": "operator precedence/associativity (expr/parser.rs), the tree-walking evaluator, string escapes/encodings, built-in functions, `!` (byte-level Not), convert_le, literal parsing (U-literal pending)",
+        "trusted_base": NUMBIGINT_TB + REPORT_TB,
+    },
     "C06": {
         "units": ["U-overlap"],
-        "claim": "OverlapChecker::check_and_insert: Ok implies the new (position,size) shares no output bit with any stored entry, the entry list stays sorted/disjoint and is changed by exactly one insertion; Err leaves it unchanged and pushes a message.",
-        "not_reached": "",
+        "claim": "OverlapChecker::check_and_insert: Ok implies the new (position,size) shares no output bit with any stored entry, the entry list stays ordered/disjoint and is changed by exactly one insertion; Err leaves it unchanged and pushes a message; an entry is rejected only if it touches a stored one.",
+        "not_reached": "bank window checks, fill, address arithmetic (units pending)",
+        "trusted_base": REPORT_TB + ["ASSUMED spec of <[T]>::binary_search_by (phrased through the closure's contract)"],
     },
+}
+
+NOT_APPLICABLE = {
+    "C07": "matching is &str scanning (syntax::token, syntax::Walker, matcher::match_with_rule) plus a metamorphic relation between two runs; Verus has no str byte reasoning and rejects the iterator chains, Kani did not terminate on 4-character symbolic strings; no contract within reach states it",
+    "C10": "determinism quantifies over processes, hash seeds and histories; a function contract describes one call; the hash-order-sensitive sites (driver::parse_output_format, format_recursive) are String/sort_by_key/closure code outside Verus' subset",
+    "C14": "filename_navigate is replace/split/filter/collect over &str (rejected by Verus, Kani did not terminate for 4-character paths); include cycle/once handling is recursion over a file-server trait object",
+    "C16": "resolve_ifs rewrites the AST with Vec::remove/Vec::splice over the full AST enum, conditions go through the evaluator, -d parsing is string code; no function-level contract expresses 'exactly one world'",
+    "C17": "a relation between two whole assemblies (asm block vs. its inlined expansion); the mechanism is &str substitution plus the evaluator/matcher, outside both verifiers' reach",
+    "C18": "getopts/String/HashMap<String,String>/PathBuf code and a usage text; driver.rs is string processing outside Verus' subset and Kani's reach",
 }
